@@ -17,6 +17,10 @@ life cycle CREATED -> RUNNING -> FINISHED -> JOINED | CANCELLED:
                energies, coordinates, SSE letters) is chosen by the case, the tool derives it from
                the input it really read and logs that input.
 
+* ``convenience_entry``  the one-call entry points (``MSAApp.align()``, ``TantanApp.mask_repeats()``,
+               ``compute_secondary_structure()``, ``compute_coordinates()``, ``annotate_sse()``) with the
+               same inputs and tool behaviours: result or exception, and what is left behind.
+
 The oracle decides for every call whether it must succeed or raise
 ``AppStateError`` (and then leave cwd, temp files, child process and clean-up
 count untouched).  Whenever the model reaches a terminal state (JOINED,
@@ -27,10 +31,16 @@ be dead.  After JOINED the results must equal what the fake tool wrote, mapped
 back to input order and sequence type.
 
 Nothing is concluded from elapsed time: a "hang" is a tool that waits for a gate
-file which the history never creates (it gives up after 30 s); the wrapper is
-then joined with ``timeout=0.2`` and only the exception type and the resources
-afterwards are looked at.  The only clock use is a bounded wait (<= 5 s) for a
-SIGKILLed child to disappear from /proc.
+file which the history never creates; the wrapper is then joined with
+``timeout=0.2`` and only the exception type and the resources afterwards are
+looked at.  A tool that gives up at its gate (after 240 s: the worker was starved)
+logs that, and the case is then discarded as invalid instead of judged.  The only
+clock uses are bounded waits (60 - 300 s, far beyond anything but a stalled machine)
+for a SIGKILLed child to disappear from /proc and for an ungated tool to exit.
+
+Where neither the property statement nor a docstring fixes the behaviour, every
+legitimate outcome is accepted and labelled (``protected_getter_*``, ``ctor_*``,
+``exit_exc=*``, ``garbage_accepted`` ...); something is still checked on each branch.
 
 A history is interpreted up to its first violation: afterwards model and wrapper
 may have diverged and later verdicts would be meaningless.
@@ -63,6 +73,7 @@ JOIN_TIMEOUT_HANG = 0.2
 JOIN_TIMEOUT_LONG = 300.0
 TERMINAL = ("JOINED", "CANCELLED")
 PROTEIN_LETTERS = "ACDEFGHIKLMNPQRSTVWYBZX"
+STDIN_TOKEN = "verif stdin token\nsecond line\n"
 
 _CLASS_CACHE = {}
 
@@ -138,6 +149,55 @@ def _expect_state_error(o, AppStateError, fn, what):
     o.fail("call_outside_life_cycle_raises_state_error", f"{what}: expected AppStateError but got a value {r!r:.200}")
 
 
+def _construct_or_launch_failure(o, sess, construct, what):
+    """Wrappers that probe the version of their binary in the constructor: with a binary that cannot be
+    launched the constructor may fail (then nothing may be left behind) or defer the failure to start()
+    (then the history goes on and the model expects the launch failure there).  Returns the app or None."""
+    from biotite.application import VersionError
+
+    try:
+        app = construct()
+    except (OSError, subprocess.SubprocessError, VersionError) as e:
+        o.label(f"ctor_exc={type(e).__name__}")
+        o.check_eq(sess.tmp_listing(), [], "no_temp_file_left", f"after failed {what}")
+        o.check_eq(os.getcwd(), sess.cwd0, "cwd_unchanged", f"after failed {what}")
+        o.check_eq(sess.log(), [], "no_child_left", f"the tool ran although the {what} failed")
+        return None
+    o.label("ctor_defers_launch_failure")
+    return app
+
+
+def _run_convenience(o, sess, call, check, must_fail, may_fail, launches, extra_dirs=()):
+    """The one-call entry points (MSAApp.align(), TantanApp.mask_repeats(), ...): start + join + getter in
+    one function.  The wrapper object is never seen, so only what the property states about the outside
+    world is judged: the result (or that a failed run raises), the temp directory, the working directory
+    and the child process (its pid is taken from the tool's own log)."""
+    try:
+        val = call()
+    except Exception as e:  # noqa: BLE001 - "a failed run raises": no type is documented
+        o.label(f"convenience_exc={type(e).__name__}")
+        if not (must_fail or may_fail):
+            raise
+        o.label("path=convenience_failed")
+        o.mark_nontrivial()
+    else:
+        if must_fail:
+            o.fail("failed_run_raises_on_join", f"the convenience function returned {val!r:.200} although the run failed")
+        elif may_fail:
+            o.label("path=convenience_garbage_accepted")
+        else:
+            o.label("path=convenience_ok")
+            check(val)
+    starts = [r for r in sess.log() if r.get("phase") == "start"]
+    o.check_eq(len(starts), 1 if launches else 0, "tool_started_once", "number of tool invocations")
+    for r in starts:
+        o.check(_wait_dead(r["pid"]), "no_child_left", f"child {r['pid']} is in state {_proc_state(r['pid'])} after the convenience function")
+    o.check_eq(sess.tmp_listing(), [], "no_temp_file_left", "after the convenience function")
+    for d in extra_dirs:
+        o.check_eq(sorted(os.listdir(d)), [], "no_temp_file_left", f"directory {d} after the convenience function")
+    o.check_eq(os.getcwd(), sess.cwd0, "cwd_unchanged", "after the convenience function")
+
+
 def _app_classes():
     from biotite.application import (
         Application,
@@ -167,6 +227,8 @@ def _counted(cls):
                 try:
                     super().run()
                 finally:
+                    # only a fall-back (and the failed-launch path): after a successful start() the
+                    # model asks the documented accessor get_process(), see LocalModel.op_start
                     self.verif_proc = getattr(self, "_process", None)
 
             def clean_up(self):
@@ -201,6 +263,7 @@ def _dummy_app_class(web=None):
                 self.run_raises = run_raises
                 self.evaluate_raises = evaluate_raises
                 self.polls = 0
+                self.told_finished = False
                 self.done = False
                 self.verif_cleanups = 0
                 self.runs = 0
@@ -214,7 +277,10 @@ def _dummy_app_class(web=None):
 
             def is_finished(self):
                 self.polls += 1
-                return self.done or (self.k is not None and self.polls > self.k)
+                finished = self.done or (self.k is not None and self.polls > self.k)
+                if finished:
+                    self.told_finished = True  # the wrapper has been told that the program is through
+                return finished
 
             def wait_interval(self):
                 return 0.0002
@@ -410,9 +476,17 @@ def run_base(case):
                 allowed(app.cancel, "cancel")
                 state, path = "CANCELLED", "cancel"
         elif name == "state":
-            if state == "RUNNING" and finishes_on_next_poll():
-                state = "FINISHED"
-            o.check_eq(_state_name(app.get_app_state()), state, "state_query_follows_life_cycle", f"op {i}")
+            # How often and when the wrapper polls the program is not documented (WebApp: a state query "may
+            # involve a server contact"; today also the text of an AppStateError polls): the model follows
+            # the polls that really happened - the wrapper is FINISHED once a poll has told it so.
+            polls_before = app.polls
+            got = _state_name(app.get_app_state())
+            if state == "RUNNING":
+                if app.told_finished:
+                    state = "FINISHED"
+                if app.polls == polls_before:
+                    o.label("state_query_without_poll")
+            o.check_eq(got, state, "state_query_follows_life_cycle", f"op {i}")
         elif name == "get_result":
             if state != "JOINED":
                 rejected_call(app.get_result, "get_result")
@@ -477,7 +551,7 @@ class Session:
         self.gate_path = os.path.join(self.dir, "gate")
         self.stdin_path = os.path.join(self.dir, "stdin.txt")
         with open(self.stdin_path, "w") as f:
-            f.write("")
+            f.write(STDIN_TOKEN)
         self.cwd0 = os.getcwd()
         self.old_tempdir = tempfile.tempdir
         self.old_env = os.environ.get(ENV)
@@ -601,6 +675,10 @@ class LocalModel:
         self.lazy_undecided = 0
         self.terminal_checked = False
         self.bad_bin = case.get("bin", "ok") != "ok"
+        self.stdin_set = False
+        self.stalled = False  # a bounded harness wait ran out: the case is discarded
+        # True after a join that was allowed to succeed on unparsable output: the results are undefined
+        self.results_undefined = False
 
     # ---- helpers
     def snapshot(self):
@@ -645,9 +723,25 @@ class LocalModel:
         return False, None
 
     def bad_option(self):
-        # an additional option that is not a string makes Popen raise TypeError: a launch failure
-        # that is not an OSError
-        return any(not isinstance(x, str) for x in self.options)
+        # An additional option with an embedded NUL cannot be handed to the OS: Popen raises ValueError,
+        # a launch failure that is not an OSError.  (The option is a str, i.e. inside the documented domain
+        # "list of str" of add_additional_options(); hand-written cases may still hold a non-string option.)
+        return any(not isinstance(x, str) or "\0" in x for x in self.options)
+
+    def undecided_call(self, fn, what, label):
+        """A call whose admissibility in the current state is fixed neither by the property nor by a
+        docstring: AppStateError and a value are both accepted (labelled), anything else is not, and
+        the call must not have side effects either way.  Returns (returned_a_value, value)."""
+        before = self.snapshot()
+        try:
+            val = fn()
+            ok = True
+            self.o.label(f"{label}=value")
+        except self.AppStateError:
+            val, ok = None, False
+            self.o.label(f"{label}=state_error")
+        self.o.check_eq(self.snapshot(), before, "rejected_call_has_no_side_effects", f"{what} in {self.state}")
+        return ok, val
 
     def will_fail_launch(self):
         return self.bad_bin or self.exec_dir == self.sess.exec_dirs[2] or self.bad_option()
@@ -658,7 +752,9 @@ class LocalModel:
             self.rejected_call(self.app.start, "start")
             return
         if self.will_fail_launch():
-            self.o.expect_raises((OSError, TypeError), self.app.start, "launch_failure_propagates", "start with a tool that cannot be launched")
+            self.o.expect_raises(
+                (OSError, ValueError, TypeError), self.app.start, "launch_failure_propagates", "start with a tool that cannot be launched"
+            )
             self.state, self.path = "CANCELLED", "launch_failure"
             if self.bad_option():
                 self.o.label("launch_failure_not_oserror")
@@ -667,7 +763,17 @@ class LocalModel:
         self.state = "RUNNING"
         self.child = "unknown" if self.released else "blocked"
         if ok:
-            self.o.check(self.app.verif_proc is not None, "start_launches_child", "no Popen object after start()")
+            # the documented accessor first; the private attribute (recorded in run()) is only a fall-back
+            proc = None
+            try:
+                proc = self.app.get_process()
+            except Exception:  # noqa: BLE001 - judged by the "get" op, not here
+                pass
+            if isinstance(proc, subprocess.Popen):
+                self.app.verif_proc = proc
+            else:
+                self.o.label("popen_from_private_attribute")
+            self.o.check(isinstance(self.app.verif_proc, subprocess.Popen), "start_launches_child", "no Popen object after start()")
 
     def op_join(self, timeout):
         if self.state not in ("RUNNING", "FINISHED"):
@@ -691,43 +797,54 @@ class LocalModel:
                 self.o.fail("call_allowed_by_life_cycle_succeeds", f"join in {self.state}: {e}")
             self.state, self.path, self.child = "CANCELLED", "timeout", "dead"
             return
-        expect = self.hooks["join_outcome"]()  # "ok" | "subprocess_error" | "any_error"
+        # "ok" | "exit_error" (failing exit code) | "any_error" (unparsable / missing output)
+        # | "either" (output that the wrapper is not bound to recognise as unparsable)
+        expect = self.hooks["join_outcome"]()
+        if self.state == "FINISHED":
+            self.o.label("join_from_finished")
         try:
             self.app.join(timeout)
-            if expect != "ok":
+            if expect in ("exit_error", "any_error"):
                 self.o.fail(
                     "failed_run_raises_on_join",
                     f"join returned although the tool behaved as {mode}/{self.tool.get('garbage')} (expected {expect})",
                 )
             self.state, self.path = "JOINED", "joined"
+            if expect == "either":
+                # accepted; what the getters return is undefined, state and clean-up are still judged
+                self.results_undefined = True
+                self.path = "garbage_accepted"
+                self.o.label("garbage_accepted")
         except self.AppStateError as e:
             self.o.fail("call_allowed_by_life_cycle_succeeds", f"join in {self.state}: {e}")
             self.state = "CANCELLED"
         except self.AppTimeoutError as e:
             self.o.fail("no_timeout_without_hang", f"join(timeout={timeout}) of a tool that exits at once: {e}")
             self.state = "CANCELLED"
-        except subprocess.SubprocessError as e:
+        except Exception as e:  # noqa: BLE001 - no docstring names the type raised for a failed run
             self.state = "CANCELLED"
             if expect == "ok":
-                self.o.fail("successful_run_joins", f"join of a run that was meant to succeed raised SubprocessError: {e}")
-                self.child = "dead"
-                return
-            self.path = "nonzero_exit" if mode == "exit" else self.hooks["failure_path"]()
-            if expect == "subprocess_error":
-                self.o.check(str(self.tool["exit_code"]) in str(e), "exit_code_reported", f"message {e}")
-        except Exception as e:  # noqa: BLE001 - the type raised for unparsable output is not documented
-            if expect == "ok":
+                if isinstance(e, subprocess.SubprocessError):
+                    self.o.fail("successful_run_joins", f"join of a run that was meant to succeed raised {type(e).__name__}: {e}")
+                    self.child = "dead"
+                    return
                 raise
-            if expect == "subprocess_error":
-                self.o.fail("failing_exit_code_raises_subprocess_error", f"got {type(e).__name__}: {e}")
-            self.state, self.path = "CANCELLED", self.hooks["failure_path"]()
-            self.o.label(f"garbage_exc={type(e).__name__}")
+            if expect == "exit_error":
+                # "a failing exit code raises": neither the class nor the text of the error is documented
+                self.path = "nonzero_exit"
+                self.o.label(f"exit_exc={type(e).__name__}")
+                self.o.label("exit_code_in_message" if str(self.tool["exit_code"]) in str(e) else "exit_code_not_in_message")
+            else:
+                self.path = self.hooks["failure_path"]()
+                self.o.label(f"garbage_exc={type(e).__name__}")
         self.child = "dead"
 
     def op_cancel(self):
         if self.state not in ("RUNNING", "FINISHED"):
             self.rejected_call(self.app.cancel, "cancel")
             return
+        if self.state == "FINISHED":
+            self.o.label("cancel_from_finished")
         self.allowed(self.app.cancel, "cancel")
         self.state, self.path, self.child = "CANCELLED", "cancel", "dead"
 
@@ -757,11 +874,17 @@ class LocalModel:
         proc = self.app.verif_proc
         if self.child == "unknown" and proc is not None:
             if not _wait_exited(proc.pid):
-                raise RuntimeError("fake tool did not exit within the bounded wait")
+                # 120 s for a tool that only writes a few lines: the machine is stalled, nothing can be judged
+                self.stalled = True
+                return
             self.child = "exited"
 
     def op_finished_getter(self, name, want):
-        """Getters documented for FINISHED | JOINED."""
+        """get_exit_code / get_stdout / get_stderr: PROTECTED getters whose docstrings name no state.
+        They must work once the program is known to have finished (FINISHED, JOINED: evaluate() of every
+        subclass relies on it) and cannot work before anything was started (CREATED) or while the program
+        certainly still runs (gated tool).  Whether they may be read after a failed or cancelled run
+        (CANCELLED, e.g. to diagnose it) is not documented: both outcomes are accepted there."""
         fn = getattr(self.app, name)
         if self.state in ("FINISHED", "JOINED"):
             ok, val = self.allowed(fn, name)
@@ -773,6 +896,13 @@ class LocalModel:
                 val = fn()
                 ok = True
             except self.AppStateError:
+                return
+        elif self.state == "CANCELLED":
+            ok, val = self.undecided_call(fn, name, "protected_getter_after_cancel")
+            if ok and self.path == "launch_failure":
+                self.o.check(val is None or val == "", "results_equal_tool_output", f"{name} after a failed launch: {val!r:.100} (no program ran)")
+            # the value is the program's output only if the program ran to its end
+            if self.path not in ("nonzero_exit", "garbage", "missing_output"):
                 return
         else:
             self.rejected_call(fn, name)
@@ -808,16 +938,32 @@ class LocalModel:
             elif name == "set_stdin":
                 f = open(self.sess.stdin_path)
                 self.sess.stdin_files.append(f)
-                self.guarded(("CREATED",), lambda: self.app.set_stdin(f), "set_stdin")
+                ok, _ = self.guarded(("CREATED",), lambda: self.app.set_stdin(f), "set_stdin")
+                if ok:
+                    self.stdin_set = True
             elif name == "get":
                 g = op[1]
-                if g == "get_command" and self.bad_option():
-                    # the command line cannot be rendered with a non-string option (TypeError from str.join)
+                if g == "get_command" and any(not isinstance(x, str) for x in self.options):
+                    # the command line cannot be rendered with a non-string option (hand-written cases only)
                     o.label("get_command_skipped_bad_option")
+                elif g == "get_command" and self.path == "launch_failure":
+                    # "Get the executed command.  Cannot be called until the application has been started":
+                    # nothing was executed - a value and a state error are both reasonable
+                    ok, val = self.undecided_call(self.app.get_command, g, "get_command_after_failed_launch")
+                    if ok:
+                        self.hooks["check_command"](val)
                 elif g == "get_command":
                     ok, val = self.guarded(("RUNNING", "FINISHED", "JOINED", "CANCELLED"), self.app.get_command, g)
                     if ok:
                         self.hooks["check_command"](val)
+                elif g == "get_process" and self.state in ("JOINED", "CANCELLED"):
+                    # PROTECTED getter without a documented state: after the run has ended the (dead) Popen
+                    # object may or may not be handed out (after a failed launch there is none)
+                    ok, val = self.undecided_call(self.app.get_process, g, "protected_getter_after_end")
+                    if ok and self.path == "launch_failure":
+                        o.check(val is None, "no_child_left", f"get_process after a failed launch: {val!r}")
+                    elif ok:
+                        o.check(val is self.app.verif_proc and val is not None, "results_equal_tool_output", "get_process")
                 elif g == "get_process":
                     ok, val = self.guarded(("RUNNING", "FINISHED"), self.app.get_process, g)
                     if ok:
@@ -832,6 +978,8 @@ class LocalModel:
                     self.hooks["getter"](self, g)
             else:
                 self.hooks["op"](self, op)
+            if self.stalled:
+                break
             # ---- invariants after every step
             o.check_eq(os.getcwd(), self.sess.cwd0, "cwd_unchanged", f"after op {i} {name}")
             want_cleanups = 1 if self.state in TERMINAL else 0
@@ -848,7 +996,6 @@ class LocalModel:
     def check_terminal(self, first, where):
         o = self.o
         o.check_eq(_state_name(self.app.get_app_state()), self.state, "state_query_follows_life_cycle", f"terminal state {where}")
-        o.check_eq(self.sess.tmp_listing(), [], "no_temp_file_left", f"{where} (path {self.path})")
         proc = self.app.verif_proc
         if self.path == "launch_failure":
             o.check(proc is None, "no_child_left", "a child exists after a failed launch")
@@ -860,9 +1007,11 @@ class LocalModel:
             else:
                 dead = _is_dead(proc.pid)
             o.check(dead, "no_child_left", f"child {proc.pid} is in state {_proc_state(proc.pid)} {where} (path {self.path})")
+        # the directory is judged when it is quiescent: after the child is gone
+        o.check_eq(self.sess.tmp_listing(), [], "no_temp_file_left", f"{where} (path {self.path})")
         if first and self.path not in ("launch_failure",):
             self.check_tool_saw()
-        if self.state == "JOINED" and first:
+        if self.state == "JOINED" and first and not self.results_undefined:
             self.hooks["check_results"](self)
 
     def check_tool_saw(self):
@@ -880,12 +1029,24 @@ class LocalModel:
         proc = self.app.verif_proc
         if proc is not None:
             o.check_eq(s["pid"], proc.pid, "tool_started_once", "pid")
+        if self.stdin_set and self.hooks.get("stdin_reaches_tool") and "stdin" in s:
+            o.label("stdin_file_set")
+            o.check_eq(s["stdin"], STDIN_TOKEN, "stdin_file_passed_to_tool", "what the tool read from standard input")
         self.hooks["check_argv"](self, s["argv"][len(self.options) :])
         if "check_input" in self.hooks and self.path not in ("timeout", "cancel"):
             self.hooks["check_input"]()
 
+    def discard_if_stalled(self):
+        """A tool that gave up waiting at its gate (or that did not exit within the bounded wait) means
+        that the worker was stopped or starved for minutes: what was observed says nothing about biotite."""
+        if self.stalled or any(r.get("phase") == "gate_timeout" for r in self.sess.log()):
+            self.o.invalid = True
+            del self.o.violations[:]
+            self.o.label("discarded:machine_stalled")
+
     def labels(self):
         o = self.o
+        self.discard_if_stalled()
         o.label(
             f"path={self.path}",
             f"end={self.state}",
@@ -897,7 +1058,7 @@ class LocalModel:
             o.label("lazy_finished_undecided")
         if self.exec_dir != self.sess.cwd0 and self.path not in (None,):
             o.label("exec_dir!=cwd")
-        o.mark_nontrivial(self.path in ("timeout", "nonzero_exit", "garbage", "missing_output", "launch_failure", "cancel"))
+        o.mark_nontrivial(self.path in ("timeout", "nonzero_exit", "garbage", "garbage_accepted", "missing_output", "launch_failure", "cancel"))
 
 
 # --------------------------------------------------------------------------
@@ -921,12 +1082,27 @@ def st_ops(setters, getters, gated):
         if draw(st.sampled_from([False] * 6 + [True])):
             return draw(st.lists(any_op, max_size=8))
         # the exec dir differs from the cwd in most histories (k = 2 does not exist: launch failure)
-        pre = draw(st.sampled_from([[["set_exec_dir", 0]], [["set_exec_dir", 1]], [["set_exec_dir", 0]], [["set_exec_dir", 1]], [["set_exec_dir", 2]], [], []]))
+        # ... and sometimes an option that cannot be passed on: a launch failure that is not an OSError
+        pre = draw(
+            st.sampled_from(
+                [[["set_exec_dir", 0]]] * 3
+                + [[["set_exec_dir", 1]]] * 3
+                + [[["set_exec_dir", 2]]]
+                + [[["add_options", ["--verif\u0000n"]]]]
+                + [[]] * 4
+            )
+        )
         pre = pre + draw(st.lists(st.one_of(setter, setter, getter, state_op, st.just(["cancel"])), max_size=2 - len(pre)))
-        release = gated and draw(st.sampled_from([True, True, False]))
-        mid = draw(st.lists(st.one_of(getter, getter, state_op, wait, setter, start), max_size=2 if release else 3))
-        if release:
-            mid.insert(draw(st.integers(0, len(mid))), ["release"])
+        release = gated and draw(st.booleans())
+        if draw(st.sampled_from([False] * 5 + [True])):
+            # the run is *observed* to be finished before it is joined / cancelled / read
+            mid = [["wait_exit"], ["state"]] + draw(st.lists(st.one_of(getter, state_op), max_size=0 if release else 1))
+            if release:
+                mid.insert(0, ["release"])
+        else:
+            mid = draw(st.lists(st.one_of(getter, getter, state_op, wait, setter, start), max_size=2 if release else 3))
+            if release:
+                mid.insert(draw(st.integers(0, len(mid))), ["release"])
         end = draw(st.one_of(join, join, join, st.just(["cancel"])))
         post = draw(st.lists(any_op, max_size=1))
         return pre + [["start"]] + mid + [end] + post
@@ -942,7 +1118,9 @@ COMMON_SETTERS = [
     ["set_exec_dir", 2],
     ["add_options", ["--verif-a"]],
     ["add_options", ["--verif-b", "--verif-c"]],
-    ["add_options", ["--verif-n", 4]],
+    # a string the OS cannot pass on: the launch fails with an error that is not an OSError
+    ["add_options", ["--verif-n", "4\u0000x"]],
+    ["add_options", ["--verif\u0000n"]],
     ["set_stdin"],
 ]
 COMMON_GETTERS = ["get_command", "get_process", "get_exit_code", "get_stdout", "get_stderr"]
@@ -954,7 +1132,7 @@ ST_STDERR = st.sampled_from(["", "warning: something\n", "two\nlines of stderr\n
 # 2. trivial LocalApp
 # ==========================================================================
 def st_local(tier):
-    setters = COMMON_SETTERS + [["set_arguments", ["pos1", "--verif-x"]], ["set_arguments", []]]
+    setters = COMMON_SETTERS + [["set_arguments", ["pos1", "--verif-x"]], ["set_arguments", []], ["set_stdin"], ["set_stdin"]]
     getters = COMMON_GETTERS + ["get_result", "get_result"]
 
     @st.composite
@@ -1030,7 +1208,8 @@ def run_local(case):
                 o.check_eq(val, 0, "results_equal_tool_output", "get_exit_code after join")
 
         hooks = {
-            "join_outcome": lambda: {"ok": "ok", "exit": "subprocess_error", "garbage": "any_error"}[tool["mode"]],
+            "join_outcome": lambda: {"ok": "ok", "exit": "exit_error", "garbage": "any_error"}[tool["mode"]],
+            "stdin_reaches_tool": True,
             "failure_path": lambda: "garbage",
             "want_exit_code": lambda: tool.get("exit_code", 0),
             "want_stdout": lambda: stdout,
@@ -1084,6 +1263,8 @@ MSA_APPS = {
         "getters": [],
     },
 }
+# what the other major version of MUSCLE prints (only the wrappers of MUSCLE probe the version)
+MSA_WRONG_VERSION = {"muscle3": "muscle 5.1.linux64 []\nBuilt Jan 13 2022 23:17:13\n", "muscle5": "MUSCLE v3.8.31 by Robert C. Edgar\n"}
 MSA_GETTERS = ["get_alignment", "get_alignment", "get_alignment_order", "get_alignment_order"]
 GARBAGE_KINDS = ["text", "drop_row", "ragged", "bad_header"]
 
@@ -1133,8 +1314,13 @@ def st_msa(tier):
             tool["garbage"] = draw(st.sampled_from(GARBAGE_KINDS))
         elif mode == "missing":
             tool["unlink_out"] = draw(st.booleans())
+        if tool["gate"]:
+            # a tool that has read its input and written all its output and then hangs
+            tool["early_output"] = draw(st.booleans())
         case["tool"] = tool
         case["bin"] = draw(st.sampled_from(["ok"] * 14 + ["missing", "noexec"]))
+        if app in MSA_WRONG_VERSION and draw(st.sampled_from([False] * 15 + [True])):
+            case["version"] = True
         case["ops"] = draw(
             st_ops(spec["setters"] * 3 + COMMON_SETTERS, MSA_GETTERS + spec["getters"] + COMMON_GETTERS, tool["gate"])
         )
@@ -1228,6 +1414,8 @@ def run_msa(case):
         ctl = dict(tool)
         ctl["patterns"] = pats
         ctl["order"] = order
+        if case.get("version"):
+            ctl["version"] = MSA_WRONG_VERSION[case["app"]]
         sess.write_ctl(ctl)
         o.label(f"app={case['app']}", f"seqtype={case['seqtype']}", f"n={n}", f"bin={case['bin']}")
         if order != sorted(order):
@@ -1244,21 +1432,37 @@ def run_msa(case):
                 return cls(seqs, bin_path)
             return cls(seqs, bin_path, matrix)
 
-        # ---- constructions that are documented to fail
-        version_probe = case["app"] in ("muscle3", "muscle5")
-        if version_probe and case["bin"] != "ok":
-            o.expect_raises(OSError, construct, "launch_failure_propagates", "constructor probing the version of a missing tool")
-            o.check_eq(sess.tmp_listing(), [], "no_temp_file_left", "after failed version probe")
-            o.check_eq(os.getcwd(), sess.cwd0, "cwd_unchanged", "after failed version probe")
-            o.label("path=ctor_launch_failure")
-            return o
-        if case["seqtype"] == "custom" and (not spec["custom"] or not case["matrix"]):
-            o.expect_raises(TypeError, construct, "unsupported_sequence_type_rejected", "custom alphabet without mapping support")
+        convenience = bool(case.get("convenience"))
+        app = None
+        # ---- constructions that fail
+        if convenience:
+            pass
+        elif case["seqtype"] == "custom" and (not spec["custom"] or not case["matrix"]) and case["bin"] == "ok" and not case.get("version"):
+            # the docstrings promise no particular type: TypeError today, ValueError would be as natural
+            o.expect_raises((TypeError, ValueError), construct, "unsupported_sequence_type_rejected", "custom alphabet without mapping support")
             o.check_eq(sess.tmp_listing(), [], "no_temp_file_left", "after rejected construction")
             o.label("path=ctor_type_error")
             return o
-
-        app = construct()
+        if convenience:
+            pass
+        elif case["seqtype"] == "custom" and (not spec["custom"] or not case["matrix"]):
+            # which of the two problems (binary, sequence type) is reported first is nobody's business
+            o.invalid = True
+            return o
+        if case.get("version") and not convenience:
+            # The binary answers the version probe with another major version (MUSCLE 3 <-> 5).  Nothing
+            # documents what the constructor does then (VersionError today): if it raises nothing may be
+            # left behind, if it returns the run goes on as usual (the fake tool does not care).
+            o.label("version_mismatch")
+        if convenience:
+            pass
+        elif case["bin"] != "ok" or case.get("version"):
+            app = _construct_or_launch_failure(o, sess, construct, "construction (version probe)")
+            if app is None:
+                o.label("path=ctor_launch_failure" if case["bin"] != "ok" else "path=ctor_version_error")
+                return o
+        else:
+            app = construct()
         sess.app = app
 
         def op(model, op):
@@ -1370,9 +1574,8 @@ def run_msa(case):
             # what the tool read must be the input sequences (mapped for custom alphabets)
             inputs = [r for r in sess.log() if r.get("phase") == "input"]
             if o.check_eq(len(inputs), 1, "tool_started_once", "input records"):
-                o.check_eq(
-                    inputs[0]["entries"], [[str(i), s] for i, s in enumerate(mapped)], "input_sequences_passed_to_tool", "FASTA the tool read"
-                )
+                # the header names are a private convention between run() and evaluate(): order and content count
+                o.check_eq([e[1] for e in inputs[0]["entries"]], list(mapped), "input_sequences_passed_to_tool", "sequences of the FASTA the tool read")
                 o.check_eq(inputs[0]["matrix"] is not None, matrix is not None, "matrix_passed_to_tool", "matrix option")
                 if inputs[0]["matrix"] is not None:
                     o.check(len(inputs[0]["matrix"].strip()) > 0, "matrix_passed_to_tool", "matrix file is empty")
@@ -1384,9 +1587,17 @@ def run_msa(case):
                 o.check_eq("--full" in argv, bool(s.get("full")), "setter_effect_iff_accepted", f"--full in {argv}")
             elif a == "muscle3":
                 if "gap" in s:
-                    want = ["-gapopen", f"{s['gap'][0]:.1f}", "-gapextend", f"{s['gap'][1]:.1f}"]
-                    i = argv.index("-gapopen") if "-gapopen" in argv else None
-                    o.check(i is not None and argv[i : i + 4] == want, "setter_effect_iff_accepted", f"{want} in {argv}")
+                    # the values count, not their formatting
+
+                    def value_of(flag):
+                        try:
+                            return float(argv[argv.index(flag) + 1])
+                        except (ValueError, IndexError):
+                            return None
+
+                    got = (value_of("-gapopen"), value_of("-gapextend"))
+                    want = (float(s["gap"][0]), float(s["gap"][1]))
+                    o.check(got == want, "setter_effect_iff_accepted", f"gap penalties {want} in {argv}")
                 else:
                     o.check("-gapopen" not in argv, "setter_effect_iff_accepted", f"-gapopen in {argv}")
             elif a == "muscle5":
@@ -1394,12 +1605,30 @@ def run_msa(case):
                 o.check_eq("-threads" in argv, "threads" in s, "setter_effect_iff_accepted", f"-threads in {argv}")
                 o.check_eq("-consiters" in argv, "iters" in s, "setter_effect_iff_accepted", f"-consiters in {argv}")
 
+        if convenience:
+            o.label("convenience")
+            unsupported = case["seqtype"] == "custom" and (not spec["custom"] or not case["matrix"])
+            launches = case["bin"] == "ok" and not unsupported
+
+            def call():
+                if case["app"] in ("clustalo", "muscle5"):
+                    return cls.align(seqs, bin_path)
+                return cls.align(seqs, bin_path, matrix)
+
+            def check(val):
+                check_alignment(val, "align()")
+                if launches:
+                    check_input()
+
+            _run_convenience(o, sess, call, check, must_fail=not launches or tool["mode"] != "ok", may_fail=False, launches=launches)
+            return o
+
         def join_outcome():
             m = tool["mode"]
             if m == "ok":
                 return "ok"
             if m == "exit":
-                return "subprocess_error"
+                return "exit_error"
             return "any_error"
 
         def want_stdout():
@@ -1412,6 +1641,7 @@ def run_msa(case):
 
         hooks = {
             "join_outcome": join_outcome,
+            "stdin_reaches_tool": True,
             "failure_path": lambda: "missing_output" if tool["mode"] == "missing" else "garbage",
             "want_exit_code": lambda: tool.get("exit_code", 0) if tool["mode"] == "exit" else 0,
             "want_stdout": None,
@@ -1453,7 +1683,9 @@ def _candidate_open(fid):
 
 
 TOOL_APPS = {
-    "tantan": {"tool": "fake_tantan", "getters": ["get_mask"], "garbage": ["non_ascii"], "missing": False},
+    # non_ascii: TantanApp is not bound to reject it (any text is a sequence with nothing or something
+    # masked); today it fails incidentally in str.encode("ASCII") - both outcomes are accepted
+    "tantan": {"tool": "fake_tantan", "getters": ["get_mask"], "garbage": ["non_ascii"], "garbage_either": ["non_ascii"], "missing": False},
     "rnafold": {
         "tool": "fake_rnafold",
         "result_on_stdout": True,
@@ -1485,7 +1717,7 @@ TOOL_VALUE_OPTS = {
     "rnafold": {"-T"},
     "rnaplot": {"-i", "--output-format", "-t"},
     "rnaalifold": {"-T"},
-    "dssp": {"-i", "-o"},
+    "dssp": {"-i", "-o", "--output-format"},
 }
 RES_NAMES = ["ALA", "GLY", "SER", "TRP", "LYS", "GLU", "PRO", "HIS"]
 SSE_LETTERS = "HBEGITSP "
@@ -1680,6 +1912,21 @@ def _pair_set(val):
     return sorted(tuple(sorted(int(x) for x in row)) for row in arr.reshape(-1, 2))
 
 
+def _parse_matrix_text(text):
+    """(column symbols, integer table) of a substitution matrix in the NCBI text format; None if it is none."""
+    lines = [ln.split() for ln in text.split("\n") if ln.strip() and not ln.lstrip().startswith("#")]
+    if not lines:
+        return None
+    symbols = lines[0]
+    rows = lines[1:]
+    try:
+        if [r[0] for r in rows] != symbols or any(len(r) != len(symbols) + 1 for r in rows):
+            return None
+        return symbols, [[int(v) for v in r[1:]] for r in rows]
+    except (ValueError, IndexError):
+        return None
+
+
 def _split_argv(app, argv):
     opts, flags, positional = {}, [], []
     takes = TOOL_VALUE_OPTS[app]
@@ -1731,12 +1978,16 @@ class _Driver:
 
     def getter(self, model, g):
         ok, val = model.guarded(("JOINED",), getattr(self.app, g), g)
-        if ok:
+        if ok and not model.results_undefined:
             self.check_value(model, g, val)
 
     def check_results(self, model):
         for g in dict.fromkeys(TOOL_APPS[self.case["app"]]["getters"]):
             self.getter(model, g)
+
+    def convenience(self, cls, bin_path):
+        """Calls the one-call entry point; returns {getter name: the value it stands for}."""
+        raise NotImplementedError
 
     def input_record(self):
         inputs = [r for r in self.sess.log() if r.get("phase") == "input"]
@@ -1780,8 +2031,15 @@ class _Tantan(_Driver):
             seqs = [NucleotideSequence(s, ambiguous=amb) for s in self.inp["seqs"]]
             matrix = SubstitutionMatrix.std_nucleotide_matrix()
         self.matrix = matrix if self.inp["matrix"] else None
-        self.app = cls(seqs if self.inp["as_list"] else seqs[0], self.matrix, bin_path)
+        self.sequence_arg = seqs if self.inp["as_list"] else seqs[0]
+        if cls is None:
+            return None
+        self.app = cls(self.sequence_arg, self.matrix, bin_path)
         return self.app
+
+    def convenience(self, cls, bin_path):
+        self.construct(None, None)
+        return {"get_mask": cls.mask_repeats(self.sequence_arg, self.matrix, bin_path)}
 
     def check_value(self, model, g, val):
         import numpy as np
@@ -1799,7 +2057,8 @@ class _Tantan(_Driver):
     def check_argv(self, model, argv):
         o = self.o
         opts, flags, positional = _split_argv("tantan", argv)
-        o.check_eq(opts.get("-x"), "!", "options_passed_to_tool", f"masking letter in {argv}")
+        # which masking letter is used is private to the wrapper (the fake tool masks with the letter it
+        # is given; without -x it lower-cases like the real one): the masks are compared anyway
         o.check_eq("-p" in flags, self.inp["seqtype"] == "protein", "options_passed_to_tool", f"-p in {argv}")
         o.check_eq("-m" in opts, self.matrix is not None, "matrix_passed_to_tool", f"-m in {argv}")
         o.check_eq(len(positional), 1, "options_passed_to_tool", f"one input file in {argv}")
@@ -1808,9 +2067,13 @@ class _Tantan(_Driver):
         rec = self.input_record()
         if rec is None:
             return
-        want = [[f"sequence_{i}", s] for i, s in enumerate(self.inp["seqs"])]
-        self.o.check_eq(rec["entries"], want, "input_sequences_passed_to_tool", "FASTA the tool read")
-        self.o.check_eq(rec["matrix"], None if self.matrix is None else str(self.matrix), "matrix_passed_to_tool", "matrix file")
+        self.o.check_eq([e[1] for e in rec["entries"]], list(self.inp["seqs"]), "input_sequences_passed_to_tool", "sequences of the FASTA the tool read")
+        if self.matrix is None or rec["matrix"] is None:
+            self.o.check_eq(rec["matrix"] is None, self.matrix is None, "matrix_passed_to_tool", "matrix file")
+        else:
+            # symbols and scores count, not the white space
+            want = ([str(x) for x in self.matrix.get_alphabet1().get_symbols()], [[int(v) for v in row] for row in self.matrix.score_matrix()])
+            self.o.check_eq(_parse_matrix_text(rec["matrix"]), want, "matrix_passed_to_tool", "matrix file (parsed)")
 
 
 class _Fold(_Driver):
@@ -1840,7 +2103,11 @@ class _Fold(_Driver):
         s = model.settings
         opts, flags, positional = _split_argv(self.case["app"], argv)
         temp = s.get("T", self.inp["temperature"] if self.inp["temperature"] is not None else 37)
-        o.check_eq(opts.get("-T"), str(temp), "options_passed_to_tool", f"temperature in {argv}")
+        try:
+            got_temp = float(opts.get("-T"))
+        except (TypeError, ValueError):
+            got_temp = None
+        o.check_eq(got_temp, float(temp), "options_passed_to_tool", f"temperature (as a number) in {argv}")
         o.check_eq("-C" in flags, "constraint" in s, "options_passed_to_tool", f"-C in {argv}")
         o.check_eq("--enforceConstraint" in flags, bool(s.get("enforce")), "options_passed_to_tool", f"--enforceConstraint in {argv}")
         o.check_eq(len(positional), 1, "options_passed_to_tool", f"one input file in {argv}")
@@ -1866,8 +2133,17 @@ class _RNAfold(_Fold):
         from biotite.sequence import NucleotideSequence
 
         seq = NucleotideSequence(self.inp["seq"], ambiguous=any(c not in "ACGT" for c in self.inp["seq"]))
+        self.sequence_arg = seq
+        if cls is None:
+            return None
         self.app = cls(seq, bin_path=bin_path, **self.ctor_kwargs())
         return self.app
+
+    def convenience(self, cls, bin_path):
+        self.construct(None, None)
+        self.inp = dict(self.inp, temperature=None)  # the entry point takes no temperature
+        db, energy = cls.compute_secondary_structure(self.sequence_arg, bin_path=bin_path)
+        return {"get_dot_bracket": db, "get_free_energy": energy}
 
     def check_value(self, model, g, val):
         o = self.o
@@ -1918,8 +2194,17 @@ class _RNAalifold(_Fold):
 
         seqs = [NucleotideSequence(s) for s in self.inp["seqs"]]
         self.trace = np.array(_expected_trace(self.pats), dtype=np.int64)
-        self.app = cls(Alignment(seqs, self.trace, score=0), bin_path=bin_path, **self.ctor_kwargs())
+        self.alignment_arg = Alignment(seqs, self.trace, score=0)
+        if cls is None:
+            return None
+        self.app = cls(self.alignment_arg, bin_path=bin_path, **self.ctor_kwargs())
         return self.app
+
+    def convenience(self, cls, bin_path):
+        self.construct(None, None)
+        self.inp = dict(self.inp, temperature=None)  # the entry point takes no temperature
+        db, free, cov = cls.compute_secondary_structure(self.alignment_arg, bin_path=bin_path)
+        return {"get_dot_bracket": db, "get_free_energy": free, "get_covariance_energy": cov}
 
     def getter(self, model, g):
         if g.startswith("get_base_pairs:"):
@@ -1951,7 +2236,7 @@ class _RNAalifold(_Fold):
         if rec is None:
             return
         s = self.model.settings
-        self.o.check_eq(rec["entries"], [[str(i), r] for i, r in enumerate(self.rows)], "input_sequences_passed_to_tool", "alignment the tool read")
+        self.o.check_eq([e[1] for e in rec["entries"]], list(self.rows), "input_sequences_passed_to_tool", "rows of the alignment the tool read")
         got = rec["constraint"]
         self.o.check_eq(
             None if got is None else got.rstrip("\n"), s.get("constraint"), "constraints_passed_to_tool", "constraint the tool read from stdin"
@@ -1985,8 +2270,15 @@ class _RNAplot(_Driver):
                 arr[::2] = arr[::2, ::-1]
             kwargs["base_pairs"] = arr
             kwargs["length"] = self.n
+        self.kwargs = kwargs
+        if cls is None:
+            return None
         self.app = cls(**kwargs)
         return self.app
+
+    def convenience(self, cls, bin_path):
+        self.construct(None, bin_path)
+        return {"get_coordinates": cls.compute_coordinates(**self.kwargs)}
 
     def op(self, model, op):
         from biotite.application.viennarna import RNAplotApp
@@ -2002,7 +2294,13 @@ class _RNAplot(_Driver):
         import numpy as np
 
         if self.o.check(isinstance(val, np.ndarray), "results_equal_tool_output", f"{g}: {type(val)}"):
-            self.o.check_array_eq(val, self.coords / 100, "coordinates_equal_tool_output", g)
+            # the tool prints two decimals; the dtype of the result is not documented
+            want = self.coords / 100
+            self.o.check(
+                val.shape == want.shape and bool(np.allclose(np.asarray(val, dtype=float), want, rtol=0, atol=5e-3)),
+                "coordinates_equal_tool_output",
+                lambda: f"{g}: got {val.tolist()!r:.400}, want {want.tolist()!r:.400}",
+            )
 
     def check_argv(self, model, argv):
         o = self.o
@@ -2073,8 +2371,14 @@ class _Dssp(_Driver):
 
     def construct(self, cls, bin_path):
         self.array = self.build()
+        if cls is None:
+            return None
         self.app = cls(self.array, bin_path)
         return self.app
+
+    def convenience(self, cls, bin_path):
+        self.construct(None, None)
+        return {"get_sse": cls.annotate_sse(self.array, bin_path)}
 
     def check_value(self, model, g, val):
         import numpy as np
@@ -2086,7 +2390,9 @@ class _Dssp(_Driver):
     def check_argv(self, model, argv):
         opts, _, positional = _split_argv("dssp", argv)
         if self.version.startswith("4"):
-            self.o.check(len(positional) == 2 and not opts, "options_passed_to_tool", f"mkdssp >= 4 takes <in> <out>: {argv}")
+            self.o.check(
+                len(positional) == 2 and "-i" not in opts and "-o" not in opts, "options_passed_to_tool", f"mkdssp >= 4 takes <in> <out>: {argv}"
+            )
         else:
             self.o.check("-i" in opts and "-o" in opts and not positional, "options_passed_to_tool", f"mkdssp < 4 takes -i <in> -o <out>: {argv}")
 
@@ -2176,19 +2482,51 @@ def run_tool(case):
 
         cls = _counted(_tool_class(name))
         bin_path = sess.bin_path(case["bin"], spec["tool"])
+        if case.get("convenience"):
+            o.label("convenience", f"{name}:convenience")
+            launches = case["bin"] == "ok"
+            either = tool["mode"] == "garbage" and tool.get("garbage") in spec.get("garbage_either", ())
+
+            class _NoSettings:
+                settings = {}
+                options = []
+
+            def check(values):
+                for g, val in values.items():
+                    drv.check_value(None, g, val)
+                recs = sess.log()
+                starts = [r for r in recs if r.get("phase") == "start"]
+                if len(starts) == 1:
+                    drv.model = _NoSettings
+                    drv.check_argv(_NoSettings, starts[0]["argv"])
+                    drv.check_input()
+
+            _run_convenience(
+                o,
+                sess,
+                lambda: drv.convenience(_tool_class(name), bin_path),
+                check,
+                must_fail=not launches or (tool["mode"] != "ok" and not either),
+                may_fail=either,
+                launches=launches,
+                extra_dirs=(sess.cwd0,),
+            )
+            return o
         if name == "dssp" and case["bin"] != "ok":
             # DsspApp probes the version of the binary in its constructor
-            o.expect_raises(OSError, lambda: drv.construct(cls, bin_path), "launch_failure_propagates", "constructor probing the version of a missing tool")
-            o.check_eq(sess.tmp_listing(), [], "no_temp_file_left", "after failed version probe")
-            o.check_eq(os.getcwd(), sess.cwd0, "cwd_unchanged", "after failed version probe")
-            o.label("path=ctor_launch_failure", f"{name}:ctor_launch_failure")
-            return o
-        app = drv.construct(cls, bin_path)
+            app = _construct_or_launch_failure(o, sess, lambda: drv.construct(cls, bin_path), "construction (version probe)")
+            if app is None:
+                o.label("path=ctor_launch_failure", f"{name}:ctor_launch_failure")
+                return o
+        else:
+            app = drv.construct(cls, bin_path)
         sess.app = app
         o.check_eq(sess.log(), [], "tool_started_once", "the tool ran before start()")
 
         def join_outcome():
-            return {"ok": "ok", "exit": "subprocess_error"}.get(tool["mode"], "any_error")
+            if tool["mode"] == "garbage" and tool.get("garbage") in spec.get("garbage_either", ()):
+                return "either"
+            return {"ok": "ok", "exit": "exit_error"}.get(tool["mode"], "any_error")
 
         def check_command(val):
             parts = val.split(" ")
@@ -2241,6 +2579,28 @@ def run_tool(case):
     return o
 
 
+def st_convenience(tier):
+    """The inputs and tool behaviours of msa_lifecycle / tool_lifecycle, without a history: one call of the
+    convenience entry point.  Never gated (the entry points take no timeout)."""
+
+    def strip(case, family):
+        case = dict(case)
+        tool = dict(case["tool"], gate=False)
+        tool.pop("early_output", None)
+        case["tool"] = tool
+        case["ops"] = []
+        case["convenience"] = True
+        case["family"] = family
+        case.pop("version", None) if family == "msa" else None
+        return case
+
+    return st.one_of(st_msa(tier).map(lambda c: strip(c, "msa")), st_tool(tier).map(lambda c: strip(c, "tool")))
+
+
+def run_convenience(case):
+    return run_msa(case) if case["family"] == "msa" else run_tool(case)
+
+
 # --------------------------------------------------------------------------
 SUBS = [
     Sub(
@@ -2285,6 +2645,20 @@ SUBS = [
         "coordinates, SSE per residue), the tool received the given input and options",
     ),
 ]
+
+SUBS.append(
+    Sub(
+        "convenience_entry",
+        st_convenience,
+        run_convenience,
+        quick=320,
+        thorough=8000,
+        rule="the run inside the convenience function fails (non-zero exit, garbage/missing output, launch failure)",
+        clauses="MSAApp.align() (ClustalOmega, MAFFT, MUSCLE 3/5), TantanApp.mask_repeats(), RNAfoldApp/RNAalifoldApp."
+        "compute_secondary_structure(), RNAplotApp.compute_coordinates(), DsspApp.annotate_sse(): result equals the "
+        "tool's output or the failed run raises; no child, temp file or changed working directory is left",
+    )
+)
 
 ENUMS = [
     Enum(
